@@ -528,3 +528,15 @@ def c08_circular_placeholder_in_pipe(w, v):
     return v['sig'].startswith('circular:differs:#CIRC!->') and \
         str(w.get('output_default_in_function', '')).startswith('circular placeholder')
 
+
+@matcher('c18_last_row_or_column_reference')
+def c18_last_row_or_column_reference(w, v):
+    """A reference touching the last column XFD or the last row 1048576 used
+    under a reference operator: its canonical name drops that coordinate (the
+    open finding C04-last-row-or-column) and reading the name back raises
+    InvalidRangeName out of Parser.ast."""
+    import re
+    text = str((w.get('case') or {}).get('text') or '')
+    return v['sig'].startswith('escape:InvalidRangeName:') and \
+        bool(re.search(r'XFD|1048576', text, re.I))
+
